@@ -53,6 +53,17 @@ def run(c, a):
     c.sample_events(pev, 1, lambda l: '"AddAllSteps"' in l)
     c.trace("PSetTrace", pev, dedupe=False, boundary=lambda l: '"ev":"preset"' in l, ctx_for=ctx_for)
 
+    # paths built step by step: fan family (TLC-enumerated) + simulated behaviours of PathBuildSM
+    fans = c.path("pbuild-fans.ndjson")
+    nf = c.tlc_gen("PathBuildFans", {"VOUT": fans})
+    bbeh = c.path("pbuild-beh.ndjson")
+    nb2 = c.tlc_sim("PathBuildSM", "PathBuildSim.cfg", bbeh, 6000 if thorough else 1500, 10, env={"VDEPTH": 9})
+    c.note("path-building behaviours", nf, "+", nb2)
+    allb = c.concat([fans, bbeh], c.path("pbuild-all.ndjson"))
+    bev = c.path("pbuild-ev.ndjson")
+    c.harness("pbuild", bev, inp=allb)
+    c.trace("PBuildTrace", bev, dedupe=False, boundary=lambda l: '"ev":"breset"' in l)
+
 def ctx_for(lines, l):
     i = l - 1
     while i >= 0 and '"ev":"preset"' not in lines[i]:
